@@ -412,3 +412,46 @@ Definition prepare_body (b : body) : prepared :=
   | BBytes x => PBytes x
   | BText s => PDict [(s_query, s)]
   end.
+
+(* ------------------------------------------------------------------------------------------------ *)
+(* access histories on ONE operation object (as returned by schema[type][field] and kept by the caller):
+   the generation config can be replaced (schema.configure(generation=...)), scalars can be (re)registered, and
+   every draw builds the strategy anew: graphql_cases (schemas.py:339-354) calls the factory on EVERY draw with
+   generation_config or self.generation_config (get_case_strategy, schemas.py:237) and with the scalar table of
+   that moment.  Nothing about a draw is remembered.                                                  *)
+Inductive event :=
+| EConfigure (cfg : gen_config)                                   (* schema.configure(generation=cfg) *)
+| ERegister (name_is_str strategy_is_strategy : bool) (name : str) (s : N)   (* schemathesis.graphql.scalar(...) *)
+| EDraw (percall : option gen_config).                            (* operation.as_strategy(generation_config=percall) + one draw *)
+
+Record gstate := { st_cfg : gen_config; st_reg : table }.
+
+(* the factory call of one draw, together with the scalar table it is given *)
+Definition draw_call (extra : table) (o : op) (st : gstate) (percall : option gen_config) : strategy_args * table :=
+  let cfg := match percall with Some c => c | None => st_cfg st end in
+  let tbl := tbl_merge extra (st_reg st) in
+  (strategy_call cfg (map fst tbl) o, tbl).
+
+Definition step_state (st : gstate) (e : event) : gstate :=
+  match e with
+  | EConfigure cfg => {| st_cfg := cfg; st_reg := st_reg st |}
+  | ERegister ns ss name s =>
+      match register ns ss name s (st_reg st) with
+      | Registered t => {| st_cfg := st_cfg st; st_reg := t |}
+      | IncorrectUsage => st
+      end
+  | EDraw _ => st
+  end.
+
+Fixpoint run_events (extra : table) (o : op) (st : gstate) (h : list event) : list (strategy_args * table) :=
+  match h with
+  | [] => []
+  | e :: rest =>
+      match e with
+      | EDraw pc => draw_call extra o st pc :: run_events extra o (step_state st e) rest
+      | _ => run_events extra o (step_state st e) rest
+      end
+  end.
+
+Definition state_after (st : gstate) (h : list event) : gstate := fold_left step_state h st.
+Definition is_draw (e : event) : bool := match e with EDraw _ => true | _ => false end.
